@@ -1843,6 +1843,39 @@ pub(crate) fn h_ifdata_definitions() {
     }
 }
 
+/// the A2ML definition supplied as built-in specification (second argument of load_from_string) instead of an A2ML
+/// block in the file: same validity verdicts, same token conservation, same cleanup behaviour
+pub(crate) fn h_ifdata_builtin_spec() {
+    let def = vrt_choice(AML_DEFS.len() as u32) as usize;
+    let conforming = vrt_choice(2) == 0;
+    let inst = if conforming { AML_INST[def].0 } else { AML_INST[def].1 };
+    let mut text = String::from("ASAP2_VERSION 1 71\n/begin PROJECT p \"\"\n/begin MODULE m \"\"\n/begin IF_DATA ");
+    text.push_str(inst);
+    text.push_str("\n/end IF_DATA\n/end MODULE\n/end PROJECT");
+    match load_from_string(&text, Some(String::from(AML_DEFS[def])), false) {
+        Ok((mut file, _log)) => {
+            {
+                let ifd = &file.project.module[0].if_data;
+                vrt_check(ifd.len() == 1, "C18 the IF_DATA block is kept (built-in specification)");
+                vrt_check(ifd[0].ifdata_valid == conforming, "C18 IF_DATA is flagged valid exactly when it conforms to the built-in A2ML specification");
+            }
+            let out1 = file.write_to_string();
+            let a = significant(&text);
+            let b = significant(&out1);
+            vrt_check(a.len() == b.len(), "C18 load+write keeps the number of significant tokens (built-in specification)");
+            let n = if a.len() < b.len() { a.len() } else { b.len() };
+            for i in 0..n { vrt_check(a[i].0 == b[i].0 && a[i].1 == b[i].1, "C18 every IF_DATA token survives load and write unchanged (built-in specification)"); }
+            file.ifdata_cleanup();
+            vrt_check(file.project.module[0].if_data.len() == if conforming { 1 } else { 0 }, "C18 ifdata_cleanup removes exactly the IF_DATA blocks that are flagged invalid (built-in specification)");
+        }
+        Err(_) => vrt_check(false, "C18 structurally balanced IF_DATA never makes loading fail (built-in specification)"),
+    }
+    // an invalid built-in specification is an error value, not a panic
+    let r = load_from_string(&text, Some(String::from("block \"IF_DATA\" struct { uint; ")), false);
+    vrt_check(r.is_err(), "C18 an invalid built-in A2ML specification is reported as an error");
+    vrt_cover(true, "ifdata_builtin_spec_end");
+}
+
 fn number_value(t: &str) -> Option<f64> {
     if t.len() > 2 && (t.starts_with("0x") || t.starts_with("0X")) {
         u64::from_str_radix(&t[2..], 16).ok().map(|v| v as f64)
@@ -2778,4 +2811,35 @@ pub(crate) fn h_every_element_layout() {
         }
         Err(_) => vrt_soft_check(false, "C05 (harness) the staggered every-element document loads in strict mode"),
     }
+}
+
+// ------------------------------------------------------------------ C01: write() to a file, with and without a banner
+
+/// A2lFile::write(path, banner): the file it writes loads to an equal model, the banner is the first comment and does
+/// not shift the content (the banner is put on the first line if that is empty, otherwise on a line of its own)
+pub(crate) fn h_write_with_banner() {
+    let lead = vrt_choice(3);          // 0: document starts with a token, 1: with an empty line, 2: with a comment line
+    let banner = vrt_choice(3);        // 0: none, 1: short text, 2: text containing a quote and a slash
+    let mut t = String::new();
+    match lead { 1 => t.push('\n'), 2 => t.push_str("/* first comment */\n"), _ => {} }
+    t.push_str("ASAP2_VERSION 1 71\n/begin PROJECT p \"\"\n\n  /begin MODULE m \"\"\n    /begin MEASUREMENT ms \"\" UBYTE NO_COMPU_METHOD 0 0 0 255\n    /end MEASUREMENT\n  /end MODULE\n/end PROJECT\n");
+    let (file, _) = load_from_string(&t, None, true).unwrap();
+    let b = match banner { 0 => None, 1 => Some("written by a2lfile"), _ => Some("tool \"x\" 1/2") };
+    let path = vrt_fs_write("out.a2l", b"");
+    match file.write(&path, b) {
+        Ok(()) => {}
+        Err(_) => { vrt_check(false, "C01 write() to a writable path succeeds"); return; }
+    }
+    match load(&path, None, true) {
+        Ok((file2, log)) => {
+            vrt_check(log.is_empty(), "C01 a file written with write() loads in strict mode without diagnostics");
+            vrt_check(file2.project == file.project && file2.asap2_version == file.asap2_version, "C01 the model read back from a file written with write() equals the original (banner aside)");
+            if banner == 0 { vrt_check(file2 == file && file2.write_to_string() == file.write_to_string(), "C01 write() without a banner stores exactly write_to_string()"); }
+            // writing the reloaded model without a banner reproduces the banner comment as an ordinary comment: still loads
+            let out = file2.write_to_string();
+            vrt_check(load_from_string(&out, None, true).is_ok(), "C01 the model read back from a bannered file can be written and loaded again");
+        }
+        Err(_) => vrt_check(false, "C01 a file written with write() loads again"),
+    }
+    vrt_cover(true, "write_with_banner_end");
 }
